@@ -610,7 +610,11 @@ func exchange(c *lib.Ctx, lc liveClient, cfg exchCfg, sc script) (res exchResult
 	if S != 0 {
 		p.remember(res.ri, theta, S)
 	}
-	if cfg.deadline != 0 && starved(cfg.deadline/8) {
+	limit := cfg.deadline / 8
+	if limit < 10*time.Millisecond {
+		limit = 10 * time.Millisecond // short deadlines come with a single datagram: only the recorded deadline verdict matters there
+	}
+	if cfg.deadline != 0 && starved(limit) {
 		// the process stalled for a noticeable part of the exchange's real-time deadline: what the client
 		// found on its socket when is not what the recorded order says
 		c.Count("discarded:process-starved")
